@@ -1,0 +1,80 @@
+//! Observation hooks for external runtime monitors (cargo feature `verif`, off by default).
+//!
+//! * `PASFMT_VERIF_TRACE=1` prints one line per processed file to stderr, saying which worker
+//!   thread handled it, as its how-manieth file, and with what capacity of the reused buffer.
+//! * `PASFMT_VERIF_DELAY_SEED=<n>` (with optional `PASFMT_VERIF_DELAY_MAX_US=<m>`) sleeps a
+//!   pseudo-random, per-file deterministic time before a file is read and before its result
+//!   is handled, to perturb the work-stealing schedule.
+//!
+//! Nothing here changes what is written to any file.
+
+use std::cell::Cell;
+use std::path::Path;
+use std::sync::OnceLock;
+
+struct Settings {
+    trace: bool,
+    delay_seed: Option<u64>,
+    delay_max_us: u64,
+}
+
+fn settings() -> &'static Settings {
+    static SETTINGS: OnceLock<Settings> = OnceLock::new();
+    SETTINGS.get_or_init(|| Settings {
+        trace: std::env::var_os("PASFMT_VERIF_TRACE").is_some(),
+        delay_seed: std::env::var("PASFMT_VERIF_DELAY_SEED")
+            .ok()
+            .and_then(|s| s.parse().ok()),
+        delay_max_us: std::env::var("PASFMT_VERIF_DELAY_MAX_US")
+            .ok()
+            .and_then(|s| s.parse().ok())
+            .unwrap_or(2000),
+    })
+}
+
+thread_local! {
+    static NTH_ON_THREAD: Cell<u64> = const { Cell::new(0) };
+}
+
+fn delay(path: &Path, phase: u64) {
+    let settings = settings();
+    let Some(seed) = settings.delay_seed else {
+        return;
+    };
+    if settings.delay_max_us == 0 {
+        return;
+    }
+    // FNV-1a over the path, mixed with the seed and the phase
+    let mut hash: u64 = 0xcbf29ce484222325 ^ seed.wrapping_mul(0x9E3779B97F4A7C15) ^ phase;
+    for b in path.as_os_str().as_encoded_bytes() {
+        hash ^= *b as u64;
+        hash = hash.wrapping_mul(0x100000001b3);
+    }
+    hash ^= hash >> 29;
+    std::thread::sleep(std::time::Duration::from_micros(
+        hash % settings.delay_max_us,
+    ));
+}
+
+pub(crate) fn before_read(path: &Path, buf_capacity: usize) {
+    let nth = NTH_ON_THREAD.with(|n| {
+        n.set(n.get() + 1);
+        n.get()
+    });
+    if settings().trace {
+        eprintln!(
+            "VERIF file={} thread={} nth_on_thread={} buf_cap={}",
+            path.display(),
+            rayon::current_thread_index()
+                .map(|i| i.to_string())
+                .unwrap_or_else(|| "main".to_owned()),
+            nth,
+            buf_capacity
+        );
+    }
+    delay(path, 1);
+}
+
+pub(crate) fn before_result(path: &Path) {
+    delay(path, 2);
+}
